@@ -316,9 +316,39 @@ def anyVal : Val → Option Val
   | .vec xs => xs.foldlM (fun acc x => match acc, x with | .bool a, .bool b => some (.bool (a || b)) | _, _ => none) (.bool false)
   | _ => none
 
+/-! ## 4x8 integer packing (WGSL §17.9/§17.10: exact integer definitions) -/
+
+def wordOf : Val → Option W
+  | .i32 a => some a | .u32 a => some a | _ => none
+
+/-- `pack4xI8`, `pack4xU8` (low byte of each component), `pack4xI8Clamp` (clamp to [-128, 127]), `pack4xU8Clamp` (to [0, 255]). -/
+def pack4 (clampS clampU : Bool) : Val → Option Val
+  | .vec [a, b, c, d] => do
+    let f (v : Val) : Option W := do
+      let w ← wordOf v
+      let w := if clampS then maxS (minS w 127#32) 0xFFFFFF80#32 else if clampU then minU w 255#32 else w
+      pure (w &&& 0xFF#32)
+    let (a, b, c, d) := (← f a, ← f b, ← f c, ← f d)
+    pure (.u32 (a ||| (b <<< 8) ||| (c <<< 16) ||| (d <<< 24)))
+  | _ => none
+
+/-- `unpack4xU8` (zero-extended bytes), `unpack4xI8` (sign-extended bytes). -/
+def unpack4 (signed : Bool) : Val → Option Val
+  | .u32 w =>
+    let byte (i : Nat) : W := (w >>> (8 * i)) &&& 0xFF#32
+    let sx (b : W) : W := if b &&& 0x80#32 != 0#32 then b ||| 0xFFFFFF00#32 else b
+    some (.vec ((List.range 4).map (fun i => if signed then .i32 (sx (byte i)) else .u32 (byte i))))
+  | _ => none
+
 /-- Builtin call by WGSL name. -/
 def builtin (name : String) (args : List Val) : Option Val :=
   match name, args with
+  | "pack4xI8", [v] => pack4 false false v
+  | "pack4xU8", [v] => pack4 false false v
+  | "pack4xI8Clamp", [v] => pack4 true false v
+  | "pack4xU8Clamp", [v] => pack4 false true v
+  | "unpack4xI8", [v] => unpack4 true v
+  | "unpack4xU8", [v] => unpack4 false v
   | "select", [f, t, c] => selectVal f t c
   | "dot", [a, b] => dotVal a b
   | "all", [a] => allVal a
